@@ -11,7 +11,7 @@
 (***************************************************************************)
 EXTENDS Integers, Sequences, FiniteSets, TLC
 
-CONSTANTS Tx, TxDef, Ord, Asset, Cap, Genesis, None, Known
+CONSTANTS Tx, TxDef, Ord, Asset, Cap, Genesis, Info0, None, Known
 
 Outs(t) == { <<t, i>> : i \in 1..Len(TxDef[t].outs) }
 \* a submit transaction's first output leaves the ledger and is not stored
@@ -26,10 +26,11 @@ VARIABLES
     lock,      \* [AllOuts -> Tx \cup {None}] input reservations of stored outputs
     dlock,     \* [deposit Tx -> Tx \cup {None}] (each deposit template has its own external id)
     total,     \* [Asset -> Int] recorded totals
+    ainfo,     \* [Asset -> {"none","std","alt"}] registered asset record (written by the first finalized deposit)
     topo,      \* sequence of applied batches
     validated, \* batches that passed signer-side validation and are not applied yet
     last       \* what the last step was and how it ended (for the replayer)
-vars == <<body, final, lock, dlock, total, topo, validated, last>>
+vars == <<body, final, lock, dlock, total, ainfo, topo, validated, last>>
 
 \* position in the batch processing order
 Pos(t) == CHOOSE i \in 1..Len(Ord) : Ord[i] = t
@@ -49,7 +50,8 @@ TxValid(t, fork) ==
          /\ TxDef[o[1]].asset = d.asset
          /\ (lock[o] \in {None, t} \/ fork)
     /\ (d.kind = "deposit" =>
-          /\ total[d.asset] + d.amt < Cap[d.asset]
+          \* capacity and record are only compared once the asset is registered
+          /\ (ainfo[d.asset] = "none" \/ (ainfo[d.asset] = d.info /\ total[d.asset] + d.amt < Cap[d.asset]))
           /\ dlock[t] \in {None, t})
 
 (* lockAndPersistTransaction; with fork a pending holder is displaced and its
@@ -73,7 +75,7 @@ VLoop(seq, i, st, fork) ==
                          /\ Exists(o) /\ TxDef[o[1]].asset = d.asset
                          /\ (st.lock[o] \in {None, t} \/ fork)
                     /\ (d.kind = "deposit" =>
-                          /\ total[d.asset] + d.amt < Cap[d.asset]
+                          /\ (ainfo[d.asset] = "none" \/ (ainfo[d.asset] = d.info /\ total[d.asset] + d.amt < Cap[d.asset]))
                           /\ st.dlock[t] \in {None, t})
                     /\ \A o \in InsOf(t) : st.lock[o] \in {None, t} \/ (fork /\ st.lock[o] \notin final)
                   displaced == { st.lock[o] : o \in InsOf(t) } \ {None, t}
@@ -95,6 +97,7 @@ Init ==
     /\ lock = [o \in AllOuts |-> None]
     /\ dlock = [t \in {u \in Tx : TxDef[u].kind = "deposit"} |-> None]
     /\ total = Genesis
+    /\ ainfo = Info0
     /\ topo = <<>>
     /\ validated = {}
     /\ last = [op |-> "Init"]
@@ -107,19 +110,23 @@ Validate(B) ==
         /\ body' = r.body /\ lock' = r.lock /\ dlock' = r.dlock
         /\ validated' = IF r.ok THEN validated \cup {B} ELSE validated
         /\ last' = [op |-> "Validate", b |-> SortedSeq(B), res |-> IF r.ok THEN "ok" ELSE "err"]
-    /\ UNCHANGED <<final, total, topo>>
+    /\ UNCHANGED <<final, total, ainfo, topo>>
 
 \* WriteSnapshot: totals after applying the not yet finalized members in order
-RECURSIVE TotalsAfter(_, _, _, _)
-TotalsAfter(seq, i, tot, fin) ==
-    IF i > Len(seq) THEN [ok |-> TRUE, total |-> tot]
+RECURSIVE TotalsAfter(_, _, _, _, _)
+TotalsAfter(seq, i, tot, fin, inf) ==
+    IF i > Len(seq) THEN [ok |-> TRUE, total |-> tot, info |-> inf]
     ELSE LET t == seq[i]  d == TxDef[t] IN
-         IF t \in fin THEN TotalsAfter(seq, i + 1, tot, fin)
-         ELSE LET nt == CASE d.kind = "deposit" -> [tot EXCEPT ![d.asset] = @ + d.amt]
+         IF t \in fin THEN TotalsAfter(seq, i + 1, tot, fin, inf)
+         ELSE \* writeAssetInfo: the first finalized deposit registers its record, a different one aborts
+              IF d.kind = "deposit" /\ inf[d.asset] \notin {"none", d.info} THEN [ok |-> FALSE, total |-> tot, info |-> inf]
+              ELSE
+              LET ni == IF d.kind = "deposit" THEN [inf EXCEPT ![d.asset] = d.info] ELSE inf
+                  nt == CASE d.kind = "deposit" -> [tot EXCEPT ![d.asset] = @ + d.amt]
                           [] d.kind = "submit"  -> [tot EXCEPT ![d.asset] = @ - d.outs[1]]
                           [] OTHER              -> tot
-              IN IF nt[d.asset] > Cap[d.asset] THEN [ok |-> FALSE, total |-> tot]
-                 ELSE TotalsAfter(seq, i + 1, nt, fin \cup {t})
+              IN IF nt[d.asset] > Cap[d.asset] THEN [ok |-> FALSE, total |-> tot, info |-> inf]
+                 ELSE TotalsAfter(seq, i + 1, nt, fin \cup {t}, ni)
 
 \* a certified batch (one this node validated as a signer) is applied
 Apply(B) ==
@@ -130,18 +137,19 @@ Apply(B) ==
              /\ last' = [op |-> "Apply", b |-> SortedSeq(B), res |-> "rejected"]
              /\ body' = r.body /\ lock' = r.lock /\ dlock' = r.dlock
              /\ validated' = validated \ {B}
-             /\ UNCHANGED <<final, total, topo>>
-        ELSE LET ta == TotalsAfter(SortedSeq(B), 1, total, final) IN
+             /\ UNCHANGED <<final, total, ainfo, topo>>
+        ELSE LET ta == TotalsAfter(SortedSeq(B), 1, total, final, ainfo) IN
              IF ~ta.ok
              THEN \* writeTotalInAsset aborts the whole write (and the process)
                   /\ last' = [op |-> "Apply", b |-> SortedSeq(B), res |-> "panic"]
                   /\ body' = r.body /\ lock' = r.lock /\ dlock' = r.dlock
                   /\ validated' = validated \ {B}
-                  /\ UNCHANGED <<final, total, topo>>
+                  /\ UNCHANGED <<final, total, ainfo, topo>>
              ELSE /\ last' = [op |-> "Apply", b |-> SortedSeq(B), res |-> "applied"]
                   /\ body' = r.body /\ lock' = r.lock /\ dlock' = r.dlock
                   /\ final' = final \cup B
                   /\ total' = ta.total
+                  /\ ainfo' = ta.info
                   /\ topo' = Append(topo, B)
                   /\ validated' = validated \ {B}
 
@@ -174,10 +182,20 @@ DepositOverflow(bseq) ==
       LET ds == { bseq[i] : i \in 1..Len(bseq) } IN
       \E t \in ds : TxDef[t].kind = "deposit" /\ TxDef[t].asset = a /\ t \notin final
                     /\ total[a] + TxDef[t].amt >= Cap[a] - Sum({u \in ds \ {t} : TxDef[u].kind = "deposit" /\ TxDef[u].asset = a /\ u \notin final}, DepAmt)
+\* Known finding C16-2: the batch holds a not yet finalized deposit of an asset whose registered
+\* record differs from the deposit's (it was validated while the asset was unregistered, or another
+\* pending deposit of the same unregistered asset in the batch carries a different record).
+RecordConflict(bseq) ==
+    LET ds == { bseq[i] : i \in 1..Len(bseq) } IN
+    \E t \in ds : TxDef[t].kind = "deposit" /\ t \notin final
+        /\ \/ ainfo[TxDef[t].asset] \notin {"none", TxDef[t].info}
+           \/ \E u \in ds \ {t} : TxDef[u].kind = "deposit" /\ u \notin final
+                                  /\ TxDef[u].asset = TxDef[t].asset /\ TxDef[u].info # TxDef[t].info
 C16StepOK ==
     last'.op = "Apply" =>
        \/ last'.res = "applied"
        \/ ("C16-1" \in Known /\ DepositOverflow(last'.b))
+       \/ ("C16-2" \in Known /\ RecordConflict(last'.b))
 C16Prop == [][C16StepOK]_vars
 
 \* structural
